@@ -236,6 +236,10 @@ var noSuppress = false
 
 // Build returns the scenario builder ("hsmsss": faults only; "hsmsss-stall": plus gstall).
 func Build(config string) core.BuildFunc {
+	if config == "secs1" {
+		return buildSECS1()
+	}
+
 	return func(w *core.World) *core.Scenario {
 		h := &harness{w: w, calls: map[string]*call{}, selAt: map[int]time.Duration{}, ended: map[int]bool{}, replayed: map[uint32]string{},
 			open: map[int][]refhsms.RxFrame{}, appCloseAt: map[int]time.Duration{}, inCall: map[string]bool{}, randomStalls: config == "hsmsss-stall", maxStall: 3 * time.Second}
